@@ -29,6 +29,16 @@ Theorem C11_buffer_reader_body : forall sniff i c,
 Proof. exact build_buffer. Qed.
 Print Assumptions C11_buffer_reader_body.
 
+(* a reader the caller had partly consumed (or positioned with Seek) before handing it over: the body is the
+   unread rest; nothing of the consumed prefix is sent, the payload is never repositioned *)
+Theorem C11_reader_body_is_the_unread_rest : forall sniff i consumed rest,
+  has_form i = false ->
+  (bi_payload i = PReader (reader_at (consumed ++ rest) (length consumed)) \/
+   bi_payload i = PReadCloser (reader_at (consumed ++ rest) (length consumed))) ->
+  build_body sniff i = OOk (Some (bi_media i)) SStream (DBytes rest).
+Proof. exact build_reader_unread. Qed.
+Print Assumptions C11_reader_body_is_the_unread_rest.
+
 (* form fields without files under a media type other than multipart/form-data: their url-encoding *)
 Theorem C11_urlencoded_body : forall sniff i,
   has_form i = true -> is_multipart i = false ->
@@ -87,6 +97,21 @@ Theorem C11_base_name : forall dir name : list nat,
 Proof. exact path_base_dir. Qed.
 Print Assumptions C11_base_name.
 
+(* a file made with runtime.NamedReader is sent under the name asked for, whatever reader was wrapped: a plain
+   one, one with a name of its own (an os.File), the result of an earlier NamedReader call ... *)
+Theorem C11_named_reader_file_name : forall sniff fn name inner chunks declared,
+  source_name (named_reader name inner) = name /\
+  p_disp (file_part sniff fn (mkfile (source_name (named_reader name inner)) chunks declared)) = disp_file fn name.
+Proof. exact named_reader_file_name. Qed.
+Print Assumptions C11_named_reader_file_name.
+
+(* ... and NamedReader has to wrap always: were a reader that already has a name returned unchanged, a renamed
+   file would keep its old name *)
+Theorem C11_named_reader_keeping_inner_refuted :
+  exists name inner, source_has_name inner = true /\ source_name (named_reader_keeping name inner) <> name.
+Proof. exact named_reader_keeping_refuted. Qed.
+Print Assumptions C11_named_reader_keeping_inner_refuted.
+
 (* the part type: the declared one, else sniffed from the content, however the source chunks its bytes *)
 Theorem C11_part_type : forall sniff f, file_type sniff f = expected_type sniff f.
 Proof. exact file_type_expected. Qed.
@@ -129,6 +154,12 @@ Theorem C11_auth_sees_sent_bytes : forall k src content,
   auth_run k src content = (repeat content' k, content').
 Proof. exact auth_sees_sent_bytes. Qed.
 Print Assumptions C11_auth_sees_sent_bytes.
+
+(* the same for a reader handed over at a position: every answer is the unread rest, and that is what is sent *)
+Theorem C11_auth_sees_unread_rest : forall k consumed rest,
+  auth_run k SStream (reader_at (consumed ++ rest) (length consumed)) = (repeat rest k, rest).
+Proof. exact auth_sees_unread_rest. Qed.
+Print Assumptions C11_auth_sees_unread_rest.
 
 (* the copy-on-demand closure behind GetBody is installed for every body except nil and the request's own
    buffer (request.go:274) ... *)
